@@ -39,9 +39,12 @@ func c09Listen(addr string, udp, tcp int, backends []string) struct {
 	return l
 }
 
-func c09Request(i int, L int) string {
+func c09Request(i int, L int) string { return c09RequestR(i, L, "") }
+
+// c09RequestR: with a Route header the request is relayed to that hop (learned-route lookup).
+func c09RequestR(i int, L int, route string) string {
 	return "OPTIONS sip:svc@" + wService + " SIP/2.0\r\nVia: SIP/2.0/UDP 10.0.2." + itoa(i+1) + ":5060;branch=z9hG4bK" + itoa(i) + rt.Str("br", "alnum", 0, L) +
-		"\r\nFrom: <sip:u" + itoa(i) + "@example.com>;tag=f\r\nTo: <sip:svc@" + wService + ">\r\nCall-ID: call" + itoa(i) + "\r\nCSeq: 1 OPTIONS\r\nContent-Length: 0\r\n\r\n"
+		"\r\n" + route + "From: <sip:u" + itoa(i) + "@example.com>;tag=f\r\nTo: <sip:svc@" + wService + ">\r\nCall-ID: call" + itoa(i) + "\r\nCSeq: 1 OPTIONS\r\nContent-Length: 0\r\n\r\n"
 }
 
 // VC09_Listeners: two listeners of one service (real startProxy: shared learned-route table,
@@ -50,6 +53,9 @@ func c09Request(i int, L int) string {
 func VC09_Listeners() {
 	L := rt.Param("L")
 	rt.Sched(rt.Param("BUDGET"), false)
+	// two deterministic scheduling policies (next higher / next lower goroutine id): the race
+	// verdict is computed from the executed schedule, so independent goroutines are run in both orders
+	rt.SchedPolicy(rt.Choice("sched-policy", 2))
 	fakenet.Reset()
 	faketime.SetClock(1000000000000)
 	dynamicHostResolver = NewDynamicHostResolver(2)
@@ -83,8 +89,18 @@ func VC09_Listeners() {
 	}
 	// simultaneously: a datagram on each UDP listener, a TCP client, and a resolution change
 	before := len(fakenet.Sent)
+	// a request relayed by Route to a peer consults the shared learned-route table; it arrives
+	// before or after the other listener's traffic (both orders: happens-before is computed from
+	// the executed schedule)
+	routed := rt.Choice("routed-request", 3) // 0 none, 1 first, 2 last
+	if routed == 1 {
+		socks[0].Deliver("10.0.2.5:5060", []byte(c09RequestR(3, L, "Route: <sip:10.0.2.2:5060;lr>\r\n")))
+	}
 	socks[0].Deliver("10.0.2.1:5060", []byte(c09Request(0, L)))
 	socks[1].Deliver("10.0.2.2:5060", []byte(c09Request(1, L)))
+	if routed == 2 {
+		socks[0].Deliver("10.0.2.5:5060", []byte(c09RequestR(3, L, "Route: <sip:10.0.2.2:5060;lr>\r\n")))
+	}
 	tc := fakenet.NewTCPConn("10.0.0.9:5060", "10.0.2.3:40000")
 	fakenet.Listeners[0].Connect(tc)
 	tc.Feed([]byte(c09Request(2, L)))
@@ -117,6 +133,9 @@ func VC09_Listeners() {
 				}
 			}
 		}
+	}
+	if routed > 0 {
+		rt.Assert(seen["call3"] == 1, "the routed request is relayed exactly once")
 	}
 	for i := 0; i < 3; i++ {
 		if change == 2 {
